@@ -5,12 +5,15 @@ Legs
   kd_seq     K-D: random pipelines (depth <= 4) over the real sequential operators vs the Lean model, with op lists
              over next / get (state_dict) / reset_none / reset_tok i / fresh (a newly built pipeline object that is
              then loaded with an earlier token).
-  kd_thr     the same for a few pipelines with a Prefetcher / threaded in-order ParallelMapper (real threads).
+  kd_thr     the same for pipelines with a Prefetcher / ParallelMapper with workers (thread and virtual-process method),
+             under the virtual scheduler with a schedule drawn per case.
   ko_resume  K-O: for each generated pipeline, each of the first two epochs and EVERY k (0 .. len, and after the
              stop): sd = state_dict() after k items -> freshly built identical pipeline -> reset(sd) -> the rest of
              the epoch and the whole next epoch equal the uninterrupted run.
   ko_chain   K-O: resume at k, take j more items, checkpoint again, resume in a third pipeline.
-  ko_thr     ko_resume for a few pipelines with real threads.
+  ko_thr     ko_resume (+ chains at two random k) for pipelines with threaded operators, three schedules per pipeline
+             (adversarial timeouts on/off, starved reader / starved consumer): the whole every-k sweep of one
+             (pipeline, schedule) runs in one virtual-scheduler session.
 """
 from __future__ import annotations
 
@@ -54,7 +57,9 @@ EXPLANATION = ("Lean: every combinator preserves `Lawful` (NodeCore): state_dict
 ASSUMPTIONS = [
     "state dicts are deep-copied when taken (serialisation); aliasing of live objects is C08's subject",
     "checkpoints are taken from pipelines that have not raised (see unbatcher_not_lawful / buffered_not_lawful for what happens otherwise)",
-    "Prefetcher / threaded ParallelMapper: real threads, OS schedule; compared with the sequential abstraction `buffered`",
+    "Prefetcher / ParallelMapper with workers run under the virtual scheduler (harness/vsched.py), schedule = part of the case; "
+    "K-D compares them with the sequential abstraction `buffered`; a ParallelMapper with workers is only generated over "
+    "sub-pipelines that cannot raise (C11)",
 ]
 KNOWN: Dict[str, Any] = {}
 
@@ -72,52 +77,26 @@ def _has_item(obs) -> bool:
     return any(isinstance(o, dict) and "i" in o for o in obs)
 
 
-def kd_batch(ctx: Ctx, leg: str, n: int, threads: bool):
-    reqs, reals, metas = [], [], []
-    extra = list(AFTER_ERROR_WITNESSES) if not threads else [AFTER_ERROR_WITNESSES[1]]
-    for i in range(n + len(extra)):
-        if i < len(extra):
-            d, ops = extra[i]["pipe"], extra[i]["ops"]
-        else:
-            d = nc.gen_pipe(ctx.rng, 4, allow_err=(not threads) or ctx.rng.random() < 0.3, allow_threads=threads)
-            inf = nc.info(d)
-            if threads and not inf["threaded"]:
-                d = {"op": "buffered", "sf": ctx.rng.choice([0, 1, 2, 3]), "pf": ctx.rng.choice([1, 2, 4]), "src": d}
-                inf = nc.info(d)
-            ops = nc.gen_ops(ctx.rng, ctx.rng.randrange(5, 14 if threads else 30), True, strict_epochs=inf["threaded"])
-        inp = {"pipe": d, "ops": ops}
-        try:
-            real = nc.run_ops_real(d, ops)
-        except Exception as e:  # noqa: BLE001
-            ctx.fail("pipeline_ops", inp, f"real pipeline raised outside next/reset: {type(e).__name__}: {e}")
-            continue
-        reqs.append({"m": "nodes", "pipe": d, "ops": ops})
-        reals.append(real)
-        metas.append(inp)
-        ctx.count("kd_root:" + d["op"])
-        if i == len(extra):
-            ctx.sample({"leg": leg, **inp})
-    answers = Driver().run(reqs)
-    for inp, real, ans in zip(metas, reals, answers):
-        ctx.model_lines += 1
-        if "error" in ans:
-            ctx.diverge(leg, inp, "model driver error: " + str(ans["error"]))
-            continue
-        model = nc.truncate_at_raise(ans["obs"])
-        uses_tok = any(isinstance(o, list) for o in inp["ops"])
-        ctx.case(leg, inp, nc.info(inp["pipe"])["size"] > 1 and _has_item(real) and uses_tok)
-        if model != real:
-            k = next((j for j, (a, b) in enumerate(zip(model, real)) if a != b), min(len(model), len(real)))
-            ctx.diverge(leg, inp, f"first difference at op {k} ({inp['ops'][k] if k < len(inp['ops']) else '?'}): impl={real[k:k+3]} model={model[k:k+3]}")
+def kd_leg(ctx: Ctx, n: int):
+    from . import c04
+    extra = [dict(w, sched={"seed": i, "adv": False, "weights": None}) for i, w in enumerate(AFTER_ERROR_WITNESSES)]
+    c04.kd_leg(ctx, n, True, extra=extra)
 
 
 # --------------------------------------------------------------------------------------------------
-# oracle
+# oracle: one (pipeline, schedule) sweep in one session
 
 
-def drain(node, limit=10000) -> List[Any]:
+class _Bad(Exception):
+    def __init__(self, where, msg):
+        super().__init__(msg)
+        self.where = where
+
+
+def _drain(s, node, limit=10000) -> List[Any]:
     out = []
     for _ in range(limit):
+        s.begin_op()
         try:
             out.append(nc.canon_item(next(node)))
         except StopIteration:
@@ -126,146 +105,162 @@ def drain(node, limit=10000) -> List[Any]:
     return out
 
 
-def uninterrupted(d, nep: int) -> List[List[Any]]:
-    node = nc.build_real(d)
+def sweep(d, sched, chain_seed: int, all_chains: bool, stats: Optional[Dict[str, int]] = None) -> Tuple[bool, str, Dict[str, Any]]:
+    """Uninterrupted run of 3 epochs; for e in {0,1}: a saving run taking state_dict() before item 0, after every item
+    and after the stop; for EVERY such point k: fresh pipeline <- reset(sd_k): rest of the epoch and the next epoch
+    must equal the uninterrupted run; chains: resume at k, j more items, state_dict(), third pipeline."""
+    import random
+    from .. import vsched
+    crng = random.Random(chain_seed)
+    nodes: List[Any] = []
+    where: Dict[str, Any] = {}
+    stats = stats if stats is not None else {}
+
+    def build():
+        n = nc.build_real(d)
+        nodes.append(n)
+        return n
+
+    def drop(n):
+        nc.shutdown(n)
+        if n in nodes:
+            nodes.remove(n)
+
     try:
-        eps = []
-        for _ in range(nep):
-            node.reset()
-            eps.append(drain(node))
-        return eps
-    finally:
-        nc.shutdown(node)
+        with nc.session(sched, nodes) as s:
+            node = build()
+            eps = []
+            for _ in range(3):
+                s.begin_op()
+                node.reset()
+                eps.append(_drain(s, node))
+            drop(node)
+            node = None
 
+            def resume(sd, want_rest, want_next, j=None):
+                n2 = build()
+                try:
+                    s.begin_op()
+                    n2.reset(copy.deepcopy(sd))
+                    if j is not None:
+                        got = []
+                        for _ in range(j):
+                            s.begin_op()
+                            got.append(nc.canon_item(next(n2)))
+                        if got != want_rest[:j]:
+                            raise _Bad(where, f"after resume the next {j} items are {got}, expected {want_rest[:j]}")
+                        s.begin_op()
+                        return copy.deepcopy(n2.state_dict())
+                    rest = _drain(s, n2)
+                    if rest != want_rest:
+                        raise _Bad(where, f"resumed pipeline yields {rest} for the rest of the epoch, uninterrupted run yields {want_rest}")
+                    s.begin_op()
+                    n2.reset()
+                    nxt = _drain(s, n2)
+                    if nxt != want_next:
+                        raise _Bad(where, f"epoch after the resumed one yields {nxt}, uninterrupted run yields {want_next}")
+                    return None
+                except StopIteration:
+                    raise _Bad(where, "resumed pipeline stops early")
+                finally:
+                    drop(n2)
 
-def states_of_epoch(d, e: int, eps: List[List[Any]]) -> Tuple[Optional[str], List[Any]]:
-    """Runs e full epochs, then epoch e item by item taking state_dict() before item 0, after every item and
-    after the stop.  Returns (problem, [sd_0 .. sd_len, sd_after_stop])."""
-    node = nc.build_real(d)
-    try:
-        for j in range(e):
-            node.reset()
-            got = drain(node)
-            if got != eps[j]:
-                return f"saving run: epoch {j} yields {got}, uninterrupted run {eps[j]}", []
-        node.reset()
-        sds = [copy.deepcopy(node.state_dict())]
-        for k, want in enumerate(eps[e]):
-            try:
-                got = nc.canon_item(next(node))
-            except StopIteration:
-                return f"saving run with state_dict() after every item stops after {k} items of epoch {e}; uninterrupted run yields {eps[e]}", []
-            if got != want:
-                return f"saving run with state_dict() after every item yields {got!r} as item {k} of epoch {e}; uninterrupted run yields {want!r}", []
-            sds.append(copy.deepcopy(node.state_dict()))
-        try:
-            x = next(node)
-            return f"saving run yields an extra item {x!r} after epoch {e}", []
-        except StopIteration:
-            pass
-        sds.append(copy.deepcopy(node.state_dict()))
-        return None, sds
-    finally:
-        nc.shutdown(node)
-
-
-def resume_check(d, sd, want_rest, want_next, j: Optional[int] = None, want_rest2=None) -> Tuple[bool, str, Any]:
-    """fresh pipeline <- sd; rest of the epoch and next epoch.  With j: take j items, checkpoint, return the new sd."""
-    node = nc.build_real(d)
-    try:
-        node.reset(copy.deepcopy(sd))
-        if j is not None:
-            got = []
-            for _ in range(j):
-                got.append(nc.canon_item(next(node)))
-            if got != want_rest[:j]:
-                return False, f"after resume the next {j} items are {got}, expected {want_rest[:j]}", None
-            return True, "ok", copy.deepcopy(node.state_dict())
-        rest = drain(node)
-        if rest != want_rest:
-            return False, f"resumed pipeline yields {rest} for the rest of the epoch, uninterrupted run yields {want_rest}", None
-        node.reset()
-        nxt = drain(node)
-        if nxt != want_next:
-            return False, f"epoch after the resumed one yields {nxt}, uninterrupted run yields {want_next}", None
-        return True, "ok", None
-    except Exception as e:  # noqa: BLE001
-        return False, f"resumed pipeline raised {type(e).__name__}: {e}", None
-    finally:
-        nc.shutdown(node)
-
-
-def check_point(d, e: int, k: int, j: Optional[int] = None) -> Tuple[bool, str]:
-    """One oracle case, self-contained (used by replay)."""
-    eps = uninterrupted(d, e + 2)
-    prob, sds = states_of_epoch(d, e, eps)
-    if prob:
-        return False, prob
-    k = min(k, len(sds) - 1)
-    rest = eps[e][min(k, len(eps[e])):]
-    if j is None:
-        ok, msg, _ = resume_check(d, sds[k], rest, eps[e + 1])
-        return ok, msg
-    j = min(j, len(rest))
-    ok, msg, sd2 = resume_check(d, sds[k], rest, eps[e + 1], j=j)
-    if not ok:
-        return ok, msg
-    ok, msg, _ = resume_check(d, sd2, rest[j:], eps[e + 1])
-    return ok, ("second resume: " + msg) if not ok else msg
-
-
-def ko_pipeline(ctx: Ctx, leg: str, d, chains: bool, max_k: Optional[int] = None):
-    nep = 3
-    try:
-        eps = uninterrupted(d, nep)
+            for e in (0, 1):
+                where.update(e=e, k=0, j=None)
+                node = build()
+                for j in range(e):
+                    s.begin_op()
+                    node.reset()
+                    got = _drain(s, node)
+                    if got != eps[j]:
+                        raise _Bad(where, f"saving run: epoch {j} yields {got}, uninterrupted run {eps[j]}")
+                s.begin_op()
+                node.reset()
+                s.begin_op()
+                sds = [copy.deepcopy(node.state_dict())]
+                for k, want in enumerate(eps[e]):
+                    where.update(k=k)
+                    s.begin_op()
+                    try:
+                        got = nc.canon_item(next(node))
+                    except StopIteration:
+                        raise _Bad(where, f"saving run with state_dict() after every item stops after {k} items of epoch {e}; uninterrupted run yields {eps[e]}")
+                    if got != want:
+                        raise _Bad(where, f"saving run with state_dict() after every item yields {got!r} as item {k} of epoch {e}; uninterrupted run yields {want!r}")
+                    s.begin_op()
+                    sds.append(copy.deepcopy(node.state_dict()))
+                s.begin_op()
+                try:
+                    x = next(node)
+                    raise _Bad(where, f"saving run yields an extra item {x!r} after epoch {e}")
+                except StopIteration:
+                    pass
+                s.begin_op()
+                sds.append(copy.deepcopy(node.state_dict()))
+                drop(node)
+                node = None
+                chain_ks = set(range(len(sds))) if all_chains else set(crng.sample(range(len(sds)), min(2, len(sds))))
+                for k in range(len(sds)):
+                    rest = eps[e][min(k, len(eps[e])):]
+                    where.update(k=k, j=None)
+                    resume(sds[k], rest, eps[e + 1])
+                    stats["points"] = stats.get("points", 0) + 1
+                    if k in chain_ks and rest:
+                        j = crng.randrange(0, len(rest) + 1)
+                        where.update(j=j)
+                        sd2 = resume(sds[k], rest, eps[e + 1], j=j)
+                        where.update(j=(j, "second resume"))
+                        resume(sd2, rest[j:], eps[e + 1])
+                        stats["chains"] = stats.get("chains", 0) + 1
+            stats["len0"] = len(eps[0])
+        return True, "ok", {}
+    except _Bad as b:
+        return False, str(b), dict(b.where)
+    except vsched.VHang as h:
+        return False, f"hang: {h}", dict(where)
     except Exception as ex:  # noqa: BLE001
-        ctx.fail("resume_point", {"pipe": d, "e": 0, "k": 0}, f"uninterrupted run raised {type(ex).__name__}: {ex}")
-        return
-    size = nc.info(d)["size"]
-    for e in (0, 1):
-        prob, sds = states_of_epoch(d, e, eps)
-        if prob:
-            ctx.fail("resume_point", {"pipe": d, "e": e, "k": 0}, prob)
-            return
-        ks = list(range(len(sds)))
-        if max_k is not None and len(ks) > max_k:
-            ks = sorted(ctx.rng.sample(ks, max_k))
-        for k in ks:
-            rest = eps[e][min(k, len(eps[e])):]
-            inp = {"pipe": d, "e": e, "k": k}
-            ok, msg, _ = resume_check(d, sds[k], rest, eps[e + 1])
-            ctx.case(leg, inp, size > 1 and len(eps[e]) >= 2)
-            ctx.count(f"{leg}:k_rel:" + ("0" if k == 0 else "end" if k == len(eps[e]) else "after_stop" if k > len(eps[e]) else "mid"))
-            if not ok:
-                ctx.fail("resume_point", inp, f"epoch {e}, checkpoint after {k} items: {msg}")
-                return
-            if chains and rest:
-                j = ctx.rng.randrange(0, len(rest) + 1)
-                inp2 = {"pipe": d, "e": e, "k": k, "j": j}
-                ok, msg, sd2 = resume_check(d, sds[k], rest, eps[e + 1], j=j)
-                if ok:
-                    ok, msg, _ = resume_check(d, sd2, rest[j:], eps[e + 1])
-                    msg = "second resume: " + msg
-                ctx.case("ko_chain", inp2, size > 1 and len(eps[e]) >= 2)
-                if not ok:
-                    ctx.fail("resume_point", inp2, f"epoch {e}, checkpoint after {k} items, {j} more, checkpoint: {msg}")
-                    return
+        return False, f"pipeline raised {type(ex).__name__}: {ex}", dict(where)
+
+
+def _ko_one(ctx: Ctx, job):
+    d = job["pipe"]
+    inf = nc.info(d)
+    leg = "ko_thr" if inf["threaded"] else "ko_resume"
+    for sc in job["scheds"]:
+        stats: Dict[str, int] = {}
+        inp = {"pipe": d, "sched": sc, "chain_seed": job["chain_seed"], "all_chains": not inf["threaded"]}
+        ok, msg, where = sweep(d, sc, job["chain_seed"], not inf["threaded"], stats)
+        nontriv = inf["size"] > 1 and stats.get("len0", 2) >= 2
+        # one case per checkpoint position (and per chain)
+        for i in range(max(1, stats.get("points", 0))):
+            ctx.case(leg, [inp, "k", i], nontriv)
+        for i in range(stats.get("chains", 0)):
+            ctx.case("ko_chain", [inp, "c", i], nontriv)
+        ctx.count("ko_sig:" + nc.pipe_sig(d).split("(")[0])
+        if inf["threaded"]:
+            ctx.count("sched:" + ("adv" if sc["adv"] else "plain") + ("/starve_" + ("main" if "main" in sc["weights"] else "reader") if sc["weights"] else ""))
+        if not ok:
+            ctx.fail("resume_sweep", inp, f"epoch {where.get('e')}, checkpoint after {where.get('k')} items"
+                     + (f", then {where.get('j')} more" if where.get("j") is not None else "") + ": " + msg)
+            break
+    return leg
+
+
+def ko_leg(ctx: Ctx, n: int):
+    jobs = []
+    for _ in range(n):
+        d = nc.gen_pipe(ctx.rng, 4, allow_err=False, p_thread=0.4, maxlen=6)
+        thr = nc.info(d)["threaded"]
+        jobs.append({"pipe": d, "scheds": [nc.gen_sched(ctx.rng) for _ in range(3 if thr else 1)],
+                     "chain_seed": ctx.rng.randrange(1 << 30)})
+    for j in jobs[:2]:
+        ctx.sample({"leg": "ko", "pipe": j["pipe"], "sched": j["scheds"][0]})
+    ctx.pmap(_ko_one, jobs)
 
 
 def run(ctx: Ctx):
-    kd_batch(ctx, "kd_seq", ctx.n(1500, 30000), False)
-    kd_batch(ctx, "kd_thr", ctx.n(70, 600), True)
-    for i in range(ctx.n(700, 12000)):
-        d = nc.gen_pipe(ctx.rng, 4, allow_err=False, allow_threads=False)
-        ctx.count("ko_sig:" + nc.pipe_sig(d).split("(")[0])
-        if i < 1:
-            ctx.sample({"leg": "ko_resume", "pipe": d})
-        ko_pipeline(ctx, "ko_resume", d, chains=True)
-    for i in range(ctx.n(25, 250)):
-        d = nc.gen_pipe(ctx.rng, 3, allow_err=False, allow_threads=True)
-        if not nc.info(d)["threaded"]:
-            d = {"op": "buffered", "sf": ctx.rng.choice([0, 1, 2, 3]), "pf": ctx.rng.choice([1, 3]), "src": d}
-        ko_pipeline(ctx, "ko_thr", d, chains=False, max_k=4)
+    kd_leg(ctx, ctx.n(1100, 30000))
+    ko_leg(ctx, ctx.n(550, 8000))
 
 
 def escalate(ctx: Ctx):
@@ -274,20 +269,20 @@ def escalate(ctx: Ctx):
 
 def replay(ctx: Ctx, payload) -> Tuple[bool, str]:
     kind, inp = payload["kind"], payload["input"]
-    if kind == "loader_history":
-        from . import c13
-        return c13.replay(ctx, payload)
-    if kind == "resume_point":
-        return check_point(inp["pipe"], inp["e"], inp["k"], inp.get("j"))
+    if kind == "resume_sweep":
+        ok, msg, where = sweep(inp["pipe"], inp.get("sched"), inp.get("chain_seed", 0), inp.get("all_chains", True))
+        return ok, (msg if ok else f"epoch {where.get('e')}, checkpoint after {where.get('k')} items: {msg}")
     if kind == "pipeline_ops":
         try:
-            nc.run_ops_real(inp["pipe"], inp["ops"])
+            obs = nc.run_ops_real(inp["pipe"], inp["ops"], inp.get("sched"))
         except Exception as e:  # noqa: BLE001
             return False, f"{type(e).__name__}: {e}"
+        if obs and isinstance(obs[-1], str) and obs[-1].startswith("hang"):
+            return False, obs[-1]
         return True, "ok"
     if kind == "resume_after_error":
         # ops = prefix up to "get", one more next on the uninterrupted object, then fresh + reset_tok + next(s)
-        obs = nc.run_ops_real(inp["pipe"], inp["ops"])
+        obs = nc.run_ops_real(inp["pipe"], inp["ops"], inp.get("sched"))
         i_get = inp["ops"].index("get")
         cont = obs[i_get + 1]
         i_res = inp["ops"].index("fresh") + 1
